@@ -23,7 +23,8 @@ Record case16 := mkC16 {
 
 Inductive kase :=
 | KLayout (c : case16)
-| KTextLine (halign : Z) (panic : bool) (lines : list line16)
+(* cov: the span texts, line by line in logical order, are the input without its line separators (compared by the harness) *)
+| KTextLine (halign : Z) (panic : bool) (cov : bool) (lines : list line16)
 | KItems (glyphs : list (Z * Z * bool * bool)) (align indent : Z) (french : bool) (hyadv : Z) (panic : bool)
          (items : list (Z * Q * Q * Q * Q * bool * Z))
 | KReorder (spans : list (Z * Z * Z)) (panic : bool) (xs : list Z).
@@ -339,7 +340,7 @@ Definition judge (k : kase) : list Z :=
   match k with
   | KLayout c => [0; chk_layout c; Z.of_nat (length (cLines c)); Z.of_nat (length (flat_map snd (cLines c)));
                   bit (existsb (fun l => existsb sRtl (snd l)) (cLines c)) 1]%Z
-  | KTextLine h p ls => [1; chk_textline h p ls; Z.of_nat (length ls); Z.of_nat (length (flat_map snd ls));
+  | KTextLine h p cov ls => [1; (chk_textline h p ls + bit (negb p && negb cov) 4)%Z; Z.of_nat (length ls); Z.of_nat (length (flat_map snd ls));
                          bit (existsb (fun l => (1 <? length (snd l))%nat) ls) 1]%Z
   | KItems gl al ind fr hy p its => [2; chk_items gl al ind fr hy p its; Z.of_nat (length gl); Z.of_nat (length its); 0]%Z
   | KReorder sp p xs => [3; chk_reorder sp p xs; Z.of_nat (length sp); 0; 0]%Z
